@@ -189,7 +189,7 @@ def r_inverse(truth, step):
     return f
 
 
-def gen_noisy(rng, grid_step=None):
+def gen_noisy(rng, grid_step=None, slow=None):
     """Noisy record with recessions of random slope and non-monotone wiggles
     (so that one interval crosses a level more than once) and storms whose
     rise only roughly follows the rain.  No ground truth."""
@@ -200,6 +200,11 @@ def gen_noisy(rng, grid_step=None):
     z = [rng.uniform(-100, -50)]
     i = 0
     wiggle = rng.random() < 0.5
+    if slow is None:
+        slow = False
+    # slow: recessions of a few hundredths of a mm per step, so that whole
+    # intervals stay inside one millimetre while crossing sub-mm grid levels
+    rate = (0.004, 0.08) if slow else (0.05, 1.0)
     while i < n:
         if rng.random() < 0.08 and z[-1] < -40:
             m = rng.randint(1, 3)
@@ -214,9 +219,9 @@ def gen_noisy(rng, grid_step=None):
                 i += 1
         else:
             rain.append(0.0 if rng.random() < 0.95 else 0.2)
-            d = -rng.uniform(0.05, 1.0)
+            d = -rng.uniform(*rate)
             if wiggle and rng.random() < 0.2:
-                d = rng.uniform(0.0, 0.6)
+                d = rng.uniform(0.0, 0.6 * rate[1])
             z.append(z[-1] + d)
             i += 1
     n = len(rain)
@@ -235,5 +240,42 @@ def gen_noisy(rng, grid_step=None):
         'z': [[k * step, z[k]] for k in keep],
         'sthr': sthr,
         'jthr': jthr,
-        'grid_step': grid_step or rng.choice([1.0, 0.5, 0.1, 0.3, 2.5, 5.0, 0.25]),
+        'grid_step': grid_step or (rng.choice([0.1, 0.05, 0.25, 0.2]) if slow else rng.choice([1.0, 0.5, 0.1, 0.3, 2.5, 5.0, 0.25])),
+        'slow': bool(slow),
+    }
+
+
+def gen_slow(rng, grid_step=None):
+    """Very slow recessions chopped by drizzle into many short interstorm
+    intervals, each staying inside one millimetre while crossing several
+    sub-millimetre grid levels; rare one-step storms keep the level in a band."""
+    step = rng.choice([1200, 1800, 3600])
+    sthr, jthr = 4.0, 8.0
+    J = jthr * step / 3600.0
+    n = rng.randint(260, 420)
+    rain, z = [], [rng.uniform(-60, -50)]
+    base = z[0]
+    for i in range(n):
+        r = rng.random()
+        if z[-1] < base - 2.5 and r < 0.3:
+            rain.append(rng.uniform(6, 20))
+            z.append(z[-1] + J * rng.uniform(1.1, 1.6))
+        elif r < 0.10:
+            rain.append(rng.choice([0.1, 0.2, 0.5]))   # drizzle: ends the interstorm interval
+            z.append(z[-1] - rng.uniform(0.0, 0.02))
+        else:
+            rain.append(0.0)
+            z.append(z[-1] - rng.uniform(0.01, 0.09))
+    z = z[:n]
+    return {
+        'kind': 'slow',
+        'step': step,
+        't0': '2021-03-01 00:00:00',
+        'tz': 'UTC',
+        'rain': rain,
+        'et': 0.1,
+        'z': [[k * step, z[k]] for k in range(n)],
+        'sthr': sthr,
+        'jthr': jthr,
+        'grid_step': grid_step or rng.choice([0.1, 0.25, 0.2, 0.5]),
     }
